@@ -208,6 +208,8 @@ impl Analyzable for Statement
 			} =>
 			{
 				analyzer.is_in_block = false;
+				// The branches of an else-if are not branches of the else.
+				analyzer.is_naked_else_branch = false;
 
 				analyzer.is_naked_then_branch = true;
 				let then_branch = Box::new(then_branch.analyze(analyzer));
